@@ -104,6 +104,12 @@ func c01Shape(g *genRun, w string) string {
 	if explainedBySpaceSequence(g, w) {
 		return "c01_space_sequence_outside_class"
 	}
+	if explainedByCaseFoldGroup(g, w) {
+		return "c01_casefold_group_stripped"
+	}
+	if explainedByFlagAfterOptimising(g, w) {
+		return "c01_case_flag_applied_after_optimising"
+	}
 	if strings.Contains(w, "\n") && explainedByDotall(g, w) {
 		return "c01_newline_lost_dotall_group_stripped"
 	}
@@ -144,6 +150,57 @@ func explainedByDotall(g *genRun, w string) bool {
 		}
 	}
 	return false
+}
+
+// The shape of known finding C01-casefold-group-stripped: the optimiser's printer writes a
+// character and its other case as (?i:X); the flag group is stripped and only X is left.  Observed
+// as narrowly as possible: the file does NOT ask for case-insensitive matching and the difference
+// disappears, in all four contexts, when the output is read case-insensitively.
+func explainedByCaseFoldGroup(g *genRun, w string) bool {
+	if strings.Contains(g.p.Flags, "i") {
+		return false
+	}
+	for _, ctx := range [][2]bool{{true, true}, {true, false}, {false, true}, {false, false}} {
+		a, e1 := matchExact("(?i)"+g.first.Stdout, w, ctx[0], ctx[1])
+		b, e2 := matchExact(g.den.txt, w, ctx[0], ctx[1])
+		if e1 != nil || e2 != nil || a != b {
+			return false
+		}
+	}
+	return true
+}
+
+func dropFlag(rx string, flag string) string {
+	if m := leadingFlagsRe.FindStringSubmatch(rx); m != nil {
+		fl := strings.ReplaceAll(m[1], flag, "")
+		if fl == "" {
+			return rx[len(m[0]):]
+		}
+		return "(?" + fl + ")" + rx[len(m[0]):]
+	}
+	return rx
+}
+
+// The shape of known finding C01-case-flag-after-optimising: the optimiser works without the
+// flags of the file and (?i) is put in front of its result afterwards; a NEGATED class it computed
+// (\W|c -> [^0-9A-Z_abd-z]) then excludes, by case folding, what it was meant to admit.  Observed:
+// the file has the i flag, the output contains a negated class, and WITHOUT the i flag output and
+// plain reading agree on the witness and on its upper- and lower-case forms in all four contexts.
+func explainedByFlagAfterOptimising(g *genRun, w string) bool {
+	if !strings.Contains(g.p.Flags, "i") || !strings.Contains(g.first.Stdout, "[^") {
+		return false
+	}
+	out, den := dropFlag(g.first.Stdout, "i"), dropFlag(g.den.txt, "i")
+	for _, v := range []string{w, strings.ToUpper(w), strings.ToLower(w)} {
+		for _, ctx := range [][2]bool{{true, true}, {true, false}, {false, true}, {false, false}} {
+			a, e1 := matchExact(out, v, ctx[0], ctx[1])
+			b, e2 := matchExact(den, v, ctx[0], ctx[1])
+			if e1 != nil || e2 != nil || a != b {
+				return false
+			}
+		}
+	}
+	return true
 }
 
 var leadingFlagsRe = regexp.MustCompile(`^\(\?([is]+)\)`)
@@ -337,6 +394,9 @@ func generateCorpus() []*Prog {
 		mk("", blk(e("(?:ab|cd)x"), e("y(?:ef|gh)")), cat, e("tail")),
 		mk("i", e("pre"), cat, blk(e("(?:ab|cd)+x"), e("y(?:ef|gh)?"), cat, e("q")), e("other")),
 		mk("", e("(?:a+|b)c"), e("d(?:e|f+)"), &Item{Kind: "store", Text: "s"}, e("m"), cat, &Item{Kind: "append", Text: "s"}),
+		// the two recorded case-folding findings, so that their shapes are exercised on every run
+		mk("", e("a"), e("A"), e("xy")),
+		mk("i", e("\\W"), e("c")),
 	}
 }
 
@@ -425,6 +485,12 @@ func suiteGenerate(env *Env, res *Result, focus string) {
 		}
 		if g.denErr != nil {
 			res.count("plain-reading-unavailable")
+			continue
+		}
+		if cl != "ok" && g.p.InlineFlags {
+			// a hand-written inline flag group is outside the fragment C01 is judged on (the optimiser
+			// and the final passes are not made for it); only the shape of what IS printed is judged
+			res.count("inline-flag-entry:rejected")
 			continue
 		}
 		if cl != "ok" {
